@@ -174,6 +174,10 @@ class QueryHandler:
             next_token = self._get_next_token()
             if next_token and next_token.kind == Token.Wildcard:
                 expr = ExpressionWildcardNew(next_token)
+            elif next_token and next_token.kind in (Token.LogicalGroupEnd, Token.DescendantGroupEnd,
+                                                    Token.ExactMatchEnd):
+                # A closing symbol where a search term is expected has no matching opening symbol.
+                raise ValueError(f"Parse error: unmatched '{next_token.text}'")
             elif next_token:
                 expr = Expression(next_token)
             else:
